@@ -43,15 +43,15 @@ def make_eval_objects(name, variant, seed):
     from .drv_func import build_loss, build_sysloss
 
     if name in ("ode", "nonstatio", "statio"):
-        st = dict(family="C12", lkind=name, batched=[1] if variant == "param" else [], pshape="scalar", ot=True, hetero="none",
-                  obsk=(variant == "obs"), b=2)
+        st = dict(family="C12", lkind=name, batched=[1] if variant in ("param", "both") else [], pshape="scalar", ot=(variant != "both"),
+                  hetero="none", obsk=(variant in ("obs", "both")), b=2)
         rec = lossrec.expand(st, seed)
         loss, params, batch = build_loss(rec)
         return loss, params, batch, True
     if name in ("sysode", "syspde", "syspdestatio"):
         lk = {"sysode": "ode", "syspde": "nonstatio", "syspdestatio": "statio"}[name]
         st = dict(family="C13", lkind=lk, neq=2, nunk=2, naming="same", wform="scalar", icpat="all" if lk != "statio" else "none",
-                  obspat="all" if variant == "obs" else "none", bnd=False, pbatch=(variant == "param"))
+                  obspat="all" if variant == "obs" else "none", bnd=False, pbatch=(variant in ("param", "both")))
         rec = lossrec.expand(st, seed)
         loss, params, batch = build_sysloss(rec)
         return loss, params, batch, True
@@ -76,9 +76,9 @@ def make_eval_objects(name, variant, seed):
         params = jinns.parameters.Params(nn_params=u.init_params(), eq_params={"a": jnp.array(0.7)})
         loss = jinns.loss.LossODE(u=u, dynamic_loss=Eq(Tmax=1), initial_condition=(0.0, 1.0), params=params)
         batch = ODEBatch(temporal_batch=jnp.array([0.1, 0.5, 0.9, 0.3]))
-        if variant == "param":
+        if variant in ("param", "both"):
             batch = append_param_batch(batch, {"a": jnp.array([[0.1], [0.2], [0.3], [0.4]])})
-        if variant == "obs":
+        if variant in ("obs", "both"):
             batch = append_obs_batch(batch, {"pinn_in": jnp.array([[0.2], [0.4]]), "val": jnp.array([[1.0], [0.5]]), "eq_params": {}})
         return loss, params, batch, False
     raise ValueError(name)
